@@ -350,4 +350,4 @@ def cases(draw):
     return {'session': session, 'updates': ups}
 
 
-ENGINES = [Engine('updates', cases, check, quick=350, thorough=8000, batch=175)]
+ENGINES = [Engine('updates', cases, check, quick=1000, thorough=12000, batch=250)]
